@@ -137,6 +137,28 @@ def case_interchange(ctx, s: Subject):
         return [None if r is None else [len(c) for _, c in r] for r in export.rows_view(NestedExtensionArray(out))]
     ctx.case("arrow.cast_widen", s.desc(), call_real(cast_struct), None,
              {"ok": [None if r is None else [len(c) for _, c in r] for r in rows]}, hyp=hyp, features=feats, nontrivial=nt)
+    # the same request through the packer's entry points, for a source that is already Arrow-backed (a nested
+    # Series, or the pandas Arrow dtype of its struct type): honoured by casting every field, or refused
+    if wt != st:
+        from nested_pandas.series.packer import pack, pack_seq
+        for src_kind in ("nested", "arrow"):
+            def source():
+                return ser if src_kind == "nested" else ser.astype(pd.ArrowDtype(st))
+            for entry, fn in (("pack_seq", lambda: pack_seq(source(), dtype=NestedDtype(wt))),
+                              ("pack", lambda: pack(source(), dtype=NestedDtype(wt))),
+                              ("pack_arrow_dtype", lambda: pack(source(), dtype=pd.ArrowDtype(wt))),
+                              # (joined on a default index: repeated labels would multiply the rows)
+                              ("add_nested", lambda: NestedFrame({"k": np.arange(len(ser))})
+                               .add_nested(source().reset_index(drop=True), "q", dtype=NestedDtype(wt))["q"])):
+                def run(fn=fn):
+                    r = fn()
+                    return {"type_honoured": bool(r.array.chunked_array.type.equals(wt)) and bool(r.dtype == NestedDtype(wt)),
+                            "lens": [None if x is None else [len(c) for _, c in x] for x in export.rows_view(r.array)]}
+                real = call_real(run)
+                ok = "err" in real or (real["ok"]["type_honoured"]
+                                       and real["ok"]["lens"] == [None if r is None else [len(c) for _, c in r] for r in rows])
+                ctx.case(f"arrow.type_request.{entry}", {**s.desc(), "source": src_kind, "requested": str(wt)}, real, None, None,
+                         hyp=hyp, features=feats + (src_kind, entry), spec_ok=ok, nontrivial=nt)
     lst = transpose_struct_list_type(st)
 
     def cast_ls():
